@@ -424,6 +424,73 @@ fn two_levels(rep: &mut Report, lists: &[Vec<&'static str>]) {
     }
 }
 
+/// A guard on the file (`#![cfg(..)]`) and a guard on something inside it: the file's guard decides about the file, and
+/// every type, variant, field and struct-variant field of a kept file is judged against the whole target list again
+fn file_and_member_levels(rep: &mut Report, lists: &[Vec<&'static str>]) {
+    let file_guards = vec![Cfg::Os("a"), Cfg::Os("b"), Cfg::Any(vec![Cfg::Os("a"), Cfg::Os("b")]), Cfg::Not(Box::new(Cfg::Os("c"))), Cfg::All(vec![Cfg::Feature, Cfg::Os("a")]), Cfg::Feature];
+    let member_guards = vec![Cfg::Os("a"), Cfg::Os("b"), Cfg::Os("c"), Cfg::Not(Box::new(Cfg::Os("a"))), Cfg::Not(Box::new(Cfg::Os("b"))), Cfg::Any(vec![Cfg::Os("b"), Cfg::Os("c")]), Cfg::Feature];
+    let mut stems = Stems::default();
+    let mut rng = Rng::new(47);
+    // (file guard, member guard, stem of the file's un-guarded type, member stem, kind)
+    let mut cases: Vec<(Cfg, Cfg, String, String, &'static str)> = vec![];
+    let mut files = vec![];
+    for (i, fg) in file_guards.iter().enumerate() {
+        let anchor = stems.fresh(&mut rng);
+        let mut src = format!("#![cfg({})]\n#[typeshare]\npub struct {} {{ pub always: u8 }}\n", fg.render(), crate::gen::cap(&anchor));
+        let mut variants = String::new();
+        let mut fields = String::new();
+        let mut vfields = String::new();
+        for mg in &member_guards {
+            let (ts, vs, fs, ws) = (stems.fresh(&mut rng), stems.fresh(&mut rng), stems.fresh(&mut rng), stems.fresh(&mut rng));
+            src.push_str(&format!("#[cfg({})]\n#[typeshare]\npub struct {} {{ pub v: u8 }}\n", mg.render(), crate::gen::cap(&ts)));
+            variants.push_str(&format!("    #[cfg({})]\n    {},\n", mg.render(), crate::gen::cap(&vs)));
+            fields.push_str(&format!("    #[cfg({})]\n    pub {fs}: u8,\n", mg.render()));
+            vfields.push_str(&format!("        #[cfg({})]\n        {ws}: u8,\n", mg.render()));
+            for (st, kind) in [(ts, "type"), (vs, "variant"), (fs, "field"), (ws, "struct-variant-field")] {
+                cases.push((fg.clone(), mg.clone(), anchor.clone(), st, kind));
+            }
+        }
+        src.push_str(&format!("#[typeshare]\npub enum Choice{i} {{\n    Always,\n{variants}}}\n"));
+        src.push_str(&format!("#[typeshare]\npub struct Record{i} {{\n    pub always: u8,\n{fields}}}\n"));
+        src.push_str(&format!("#[typeshare]\n#[serde(tag = \"t\", content = \"c\")]\npub enum Tagged{i} {{\n    Always,\n    Rec {{\n        always: u8,\n{vfields}    }},\n}}\n"));
+        files.push(SrcFile { path: format!("src/guarded_{i}.rs"), source: src });
+    }
+    for t in lists {
+        let tos: Vec<String> = t.iter().map(|s| s.to_string()).collect();
+        let out = run_lib(&files, LangId::Ts, &LangCfg::default(), false, &tos);
+        rep.count("library_runs", 1);
+        let present = match &out {
+            LibOutcome::Ok(_) => match present_stems(out.single().unwrap_or("")) {
+                Some(p) => p,
+                None => {
+                    rep.inconclusive("typescript-output-not-parsed", json!({"workload": "file-and-member-levels"}));
+                    continue;
+                }
+            },
+            other => {
+                rep.inconclusive("typeshare-failed", json!({"workload": "file-and-member-levels", "outcome": other.describe()}));
+                continue;
+            }
+        };
+        for (fg, mg, anchor, st, kind) in &cases {
+            let want_file = expect_keep(std::slice::from_ref(fg), t);
+            let want_member = want_file && expect_keep(std::slice::from_ref(mg), t);
+            rep.eval(1);
+            rep.count("decisions_file_and_member_levels", 1);
+            rep.cell(format!("file-and-member|{kind}|file={}|member={}|T{}|{want_file}|{want_member}", fg.shape(), mg.shape(), t.len()));
+            for (what, want, got) in [("file", want_file, present.contains(anchor)), ("member", want_member, present.contains(st))] {
+                if want != got {
+                    rep.violate(
+                        format!("C13|library|file-and-member-levels|{kind}|{what}|{}", if want { "wrongly-filtered" } else { "wrongly-kept" }),
+                        format!("{kind} guarded by cfg({}) in a file guarded by #![cfg({})] with target list {t:?}: the {what} is expected {}, the generated output {}", mg.render(), fg.render(), if want { "kept" } else { "omitted" }, if got { "contains it" } else { "omits it" }),
+                        json!({"file_cfg": fg.render(), "member_cfg": mg.render(), "target_os": t, "what": what, "expected_kept": want, "observed_kept": got}),
+                    );
+                }
+            }
+        }
+    }
+}
+
 /// An un-guarded enum without tag / content whose only data-carrying variants are rejected by the target list: what is
 /// left is a unit enum, and it is generated with exactly its accepted variants
 fn rejected_payload_variants(rep: &mut Report, lists: &[Vec<&'static str>]) {
@@ -645,6 +712,7 @@ pub fn run(ctx: &Ctx) -> (Spec, Report) {
     two_levels(&mut rep, &lists);
     same_named_alternatives(&mut rep, &lists);
     rejected_payload_variants(&mut rep, &lists);
+    file_and_member_levels(&mut rep, &lists);
     let _ = std::fs::remove_dir_all(&scratch);
     let spec = Spec {
         level: "exploration",
